@@ -59,9 +59,10 @@ func harnessFuncs(pkg string) []string {
 }
 
 type nativeBin struct {
-	path string
-	err  error
-	log  string
+	path  string
+	err   error
+	log   string
+	tries int
 }
 
 var (
@@ -91,11 +92,18 @@ func cleanupScratch() {
 func nativeBinary(pkg string) (string, error) {
 	nativeMu.Lock()
 	defer nativeMu.Unlock()
-	if nb, ok := nativeBins[pkg]; ok {
+	if nb, ok := nativeBins[pkg]; ok && (nb.err == nil || nb.tries >= 3) {
 		return nb.path, nb.err
 	}
-	nb := &nativeBin{}
-	nativeBins[pkg] = nb
+	// a failed build is retried (up to 3 times): the machine may be overloaded, or - while developing - a harness
+	// file may have been caught half-edited
+	nb := nativeBins[pkg]
+	if nb == nil {
+		nb = &nativeBin{}
+		nativeBins[pkg] = nb
+	}
+	nb.tries++
+	nb.err = nil
 	v, err := buildView(true, []string{pkg})
 	if err != nil {
 		nb.err = err
